@@ -252,7 +252,7 @@ func c12RunProc(ctl *c12Ctl, p *c12Proc, repo *repository.Repository) {
 func streamC12(h *H) {
 	buf := make([]byte, 4<<20)
 	host, _ := os.Hostname()
-	ncases := h.N(200, 20000)
+	ncases := h.N(600, 24000)
 	for ci := 0; ci < ncases; ci++ {
 		base := mem.New()
 		repository.TestRepositoryWithBackend(TB, base, 0, repository.Options{})
